@@ -6,7 +6,11 @@ VERIF = os.path.dirname(os.path.dirname(os.path.abspath(__file__)))
 REPO = os.environ.get("VERIF_REPO", "/repo")
 COQ = os.path.join(VERIF, "coq")
 DRIVER_DIR = os.path.join(VERIF, "driver")
-DRIVER = os.path.join(DRIVER_DIR, "driver")
+def driver_bin(name="core"):
+    return os.path.join(DRIVER_DIR, "driver_" + name)
+
+
+DRIVER = driver_bin("core")
 HARNESS_DIR = os.path.join(VERIF, "harness")
 BUILD = os.path.join(VERIF, "build")
 EVIDENCE = os.path.join(VERIF, "evidence")
@@ -164,28 +168,31 @@ def audit_assumptions(make_out, props_file):
     return len(theorems), ok, problems, sorted(used)
 
 
-def build_driver():
-    r = coq_make(["Extract/Extract.vo"])
+def build_driver(name="core"):
+    r = coq_make(["Extract/Extract_%s.vo" % name])
     if not r.ok:
         return r
-    ml = os.path.join(COQ, "model.ml")
-    stamp = os.path.join(DRIVER_DIR, ".model.sha")
+    ml = os.path.join(COQ, "model_%s.ml" % name)
+    stamp = os.path.join(DRIVER_DIR, ".model_%s.sha" % name)
     h = hashlib.sha256(open(ml, "rb").read() + open(os.path.join(DRIVER_DIR, "main.ml"), "rb").read()).hexdigest()
-    if os.path.exists(DRIVER) and os.path.exists(stamp) and open(stamp).read() == h:
+    if os.path.exists(driver_bin(name)) and os.path.exists(stamp) and open(stamp).read() == h:
         return StepResult(True, "driver up to date")
-    rc, out, dt = sh(["sh", "build.sh"], cwd=DRIVER_DIR, timeout=600)
-    if rc != 0 or not os.path.exists(DRIVER):
+    rc, out, dt = sh(["sh", "build.sh", name], cwd=DRIVER_DIR, timeout=600)
+    if rc != 0 or not os.path.exists(driver_bin(name)):
         return StepResult(False, "driver build failed", out)
     open(stamp, "w").write(h)
     return StepResult(True, "driver built in %.1fs" % dt)
 
 
-def harness_bin(profile="release", features=()):
-    tdir = "target" if not features else "target-" + "-".join(features)
-    return os.path.join(HARNESS_DIR, tdir, "release" if profile == "release" else "debug", "verif-harness")
+def _tdir(profile, features):
+    return "target" if not features else "target-" + "-".join(features)
 
 
-def build_harness(profile="release", features=(), timeout=1500):
+def harness_bin(profile="release", features=(), bin_name="core"):
+    return os.path.join(HARNESS_DIR, _tdir(profile, features), "release" if profile == "release" else "debug", bin_name)
+
+
+def build_harness(profile="release", features=(), timeout=1500, bin_name="core"):
     lock = os.path.join(HARNESS_DIR, "Cargo.lock")
     src = os.path.join(REPO, "Cargo.lock")
     try:
@@ -193,8 +200,7 @@ def build_harness(profile="release", features=(), timeout=1500):
             open(lock, "wb").write(open(src, "rb").read())
     except OSError as e:
         return StepResult(False, "cannot copy Cargo.lock: %r" % e)
-    tdir = "target" if not features else "target-" + "-".join(features)
-    cmd = ["cargo", "build", "--offline", "--target-dir", tdir]
+    cmd = ["cargo", "build", "--offline", "--target-dir", _tdir(profile, features), "--bin", bin_name]
     if profile == "release":
         cmd.append("--release")
     if features:
